@@ -6,6 +6,7 @@ import json
 from spverif.core.util import attempt, exc_sig, hist_len
 from spverif.ref import cfdp as R
 from . import _cfdp as C
+from . import _views as V
 
 SCRIBBLE = True
 THOROUGH_SCALE = 12
@@ -47,6 +48,23 @@ def k_factory(ctx, kind, cfg, p):
     ctx.check("inspect.pdu_directive_type", ok and ((dt is None) if want_dt is None else (dt is not None and int(dt) == want_dt)), "value", feat, case,
               observed=repr(dt), expected=want_dt)
     ctx.check("inspect.header_len_from_raw", X.PduHeader.header_len_from_raw(raw) == h["header_len"], "value", feat, case)
+    # the same inspector reached through the PDU classes and through instances (it is inherited by all of them)
+    for how, fn in (("class", lambda: X.CLS[kind].header_len_from_raw(raw)), ("instance", lambda: orig.header_len_from_raw(raw)), ("prefix", lambda: X.PduHeader.header_len_from_raw(raw[:4]))):
+        ok, v = attempt(fn)
+        ctx.check("inspect.header_len_from_raw", ok and v == h["header_len"], "value_through_" + how, feat, case, observed=repr(v), expected=h["header_len"])
+    # inspectors on a peeked prefix: everything they need is the fixed part of the header (+ the directive octet)
+    hl_ = h["header_len"]
+    for n in (hl_ + 1, hl_ + 2, 4, 1):
+        pre = raw[:n]
+        ok, t2 = attempt(X.PduFactory.pdu_type, pre)
+        ctx.check("inspect.pdu_type", ok and int(t2) == h["pdu_type"], "value_on_prefix", f"{kind}/n={'hl+' + str(n - hl_) if n > hl_ else n}", case, observed=repr(t2))
+        if n > hl_:
+            ok, dt2 = attempt(X.PduFactory.pdu_directive_type, pre)
+            ctx.check("inspect.pdu_directive_type", ok and ((dt2 is None) if want_dt is None else (dt2 is not None and int(dt2) == want_dt)), "value_on_prefix", f"{feat}/n=hl+{n - hl_}", case,
+                      observed=repr(dt2), expected=want_dt)
+    if kind != "file_data":
+        ok, dt3 = attempt(X.PduFactory.pdu_directive_type, raw[:hl_])
+        ctx.check("inspect.pdu_directive_type", not ok and isinstance(dt3, ValueError), "prefix_without_directive_octet_not_refused", feat, case, observed=repr(dt3))
     # generic decode
     ok, pdu = attempt(X.PduFactory.from_raw, raw)
     if not ctx.check("factory.from_raw", ok and pdu is not None, "raised_or_none", f"{feat}/" + (exc_sig(pdu) if not ok else "None"), case, error=repr(pdu)):
@@ -58,6 +76,7 @@ def k_factory(ctx, kind, cfg, p):
     ctx.check("factory.from_raw", ok2 and bytes(rp) == raw, "repack_differs", feat, case)
     got = C.norm_params(kind, C.get_params(kind, pdu))
     ctx.check("factory.from_raw", got == C.norm_params(kind, p), "params_differ", f"{feat}/{C.diff_keys(got, C.norm_params(kind, p))}", case, observed=got)
+    V.pdu_views(ctx, "factory.from_raw", pdu, raw, dict(h, dst_w=cfg["idw"]), case, f"{type(pdu).__name__}/from_raw")
     ISO.remember(pdu, raw, kind, view=lambda pdu=pdu: (C.get_params(kind, pdu), C.hdr_fields(pdu.pdu_header), pdu.packet_len))
     ISO.recheck(ctx, "factory.decoded_objects_independent", case)
     # holder
